@@ -40,6 +40,11 @@ pub enum ConvRes {
     Skipped,
 }
 
+thread_local! {
+    /// the length-prefix form byte strings are encoded with (None: the shortest)
+    static LENENC_FORM: std::cell::Cell<Option<u8>> = std::cell::Cell::new(None);
+}
+
 impl PSem {
     fn ty(&self) -> u8 {
         match self {
@@ -71,7 +76,25 @@ impl PSem {
             PSem::F64(f) => f.to_le_bytes().to_vec(),
             PSem::Bytes(_, b) => {
                 let mut v = Vec::new();
-                put_lenenc_str(&mut v, b);
+                match LENENC_FORM.with(|f| f.get()) {
+                    // a legal but not the shortest length prefix
+                    Some(0xfc) if b.len() < 1 << 16 => {
+                        v.push(0xfc);
+                        v.extend_from_slice(&(b.len() as u16).to_le_bytes());
+                        v.extend_from_slice(b);
+                    }
+                    Some(0xfd) if b.len() < 1 << 24 => {
+                        v.push(0xfd);
+                        v.extend_from_slice(&(b.len() as u32).to_le_bytes()[..3]);
+                        v.extend_from_slice(b);
+                    }
+                    Some(0xfe) => {
+                        v.push(0xfe);
+                        v.extend_from_slice(&(b.len() as u64).to_le_bytes());
+                        v.extend_from_slice(b);
+                    }
+                    _ => put_lenenc_str(&mut v, b),
+                }
                 v
             }
             PSem::Date { len, y, mo, d, h, mi, s, us, .. } => {
@@ -814,6 +837,48 @@ impl Family for AfterAbandonedLongData {
     }
 }
 
+/// byte-string parameters whose length is sent with a legal but not the shortest prefix (0xfc + 2
+/// bytes for a length below 251, 0xfd + 3, 0xfe + 8): the value and every parameter behind it must
+/// arrive exactly as with the shortest form
+struct LengthForms;
+const FORM_LENS: [usize; 9] = [0, 1, 2, 250, 251, 252, 300, 65_535, 65_536];
+const STRING_TYPES: [u8; 6] = [0xfd, 0xfc, 0xfe, 0x0f, 0xf6, 0xfb];
+impl Family for LengthForms {
+    fn name(&self) -> String {
+        "byte-strings-with-every-legal-length-prefix-form".into()
+    }
+    fn len(&self) -> u64 {
+        (FORM_LENS.len() * 3 * STRING_TYPES.len() * 2) as u64
+    }
+    fn run(&self, idx: u64, st: &mut Stats) -> Result<(), Violation> {
+        let d = digits(idx, &[FORM_LENS.len() as u64, 3, STRING_TYPES.len() as u64, 2]);
+        let n = FORM_LENS[d[0] as usize];
+        let form = [0xfcu8, 0xfd, 0xfe][d[1] as usize];
+        let ty = STRING_TYPES[d[2] as usize];
+        st.nontrivial += 1;
+        st.bump("length_prefix_forms");
+        let data: Vec<u8> = (0..n).map(|i| ((i * 29 + n) % 256) as u8).collect();
+        // the string first or in the middle, integers around it so that a shifted offset shows
+        let e = if d[3] == 0 {
+            vec![PSem::Bytes(ty, data), PSem::Int { ty: 0x03, unsigned: false, v: -2 }, PSem::Bytes(0xfd, b"tail".to_vec())]
+        } else {
+            vec![PSem::Int { ty: 0x08, unsigned: true, v: u64::MAX as i128 - 1 }, PSem::Bytes(ty, data), PSem::Int { ty: 0x01, unsigned: false, v: -3 }]
+        };
+        LENENC_FORM.with(|f| f.set(Some(form)));
+        let r = run_execs(3, &[e.clone(), e], st);
+        LENENC_FORM.with(|f| f.set(None));
+        r.map_err(|mut v| {
+            v.msg = format!("string of {} bytes (type {:#04x}) sent with length prefix form {:#04x}: {}", n, ty, form, v.msg);
+            v
+        })
+    }
+    fn describe(&self, idx: u64) -> J {
+        let d = digits(idx, &[FORM_LENS.len() as u64, 3, STRING_TYPES.len() as u64, 2]);
+        let form = [0xfcu8, 0xfd, 0xfe][d[1] as usize];
+        json!({"length": FORM_LENS[d[0] as usize], "prefix_form": form, "type": STRING_TYPES[d[2] as usize], "position": d[3]})
+    }
+}
+
 pub fn build(quick: bool) -> Check {
     let mut families: Vec<Box<dyn Family>> = vec![
         Box::new(Values::new(quick)),
@@ -828,6 +893,7 @@ pub fn build(quick: bool) -> Check {
         }),
         Box::new(AfterLongData),
         Box::new(AfterAbandonedLongData),
+        Box::new(LengthForms),
         Box::new(ExecHeader),
     ];
     if !quick {
@@ -836,12 +902,12 @@ pub fn build(quick: bool) -> Check {
     Check {
         id: "C08",
         level: "model_checking",
-        rule: "COM_STMT_EXECUTE parameter blocks built from semantic values by the independent encoder and run through the real run_on; the shim records (type, raw inner value) and applies the documented Into<T> for the corresponding Rust type under catch_unwind. Domains: TINY, SHORT, YEAR exhaustive (signed and unsigned); LONG/INT24/LONGLONG over every 2^k, 2^k+-1 and the bounds; FLOAT/DOUBLE lattices incl. subnormals and infinities; byte strings of every length 0..300 and the length-class edges for all 14 string-like type codes, 65535..65537 (and around 2^24 in thorough); every legal length form of DATE/DATETIME/TIMESTAMP (0,4,7,11; DATE with a time part raw only) and TIME (0,8,12) over boundary calendar values, every month with its first/28th/last days in five years, every hour x five day counts, microseconds of every decimal shape; negative TIME raw only; all 26 type codes (MYSQL_TYPE_NULL among them) x unsigned in four position classes next to every other type; consecutive executions of one statement binding every ordered pair of (type, unsigned) tables (one parameter: all 52^2, and all 52^2 with the executions alternating between two statements of the same shape - 1:T1, 2:T2, 1:T2, 2:T1; two parameters: all 12^4 over the integer codes, thorough: all 52^4 over every code; triples 12^3), values with the top bit set; parameter counts 0..17, 63, 64, 65, 255, 256, 300, 65529, 65535 (thorough: more around 2^15 and 2^16) with all 2^n NULL bitmaps for n <= 12 (8 in quick) and structured ones above; inline executions that follow an execution fed by 0..1.2 MB of long data, and the first inline executions of a statement prepared after 0..1.2 MB of another statement's long data was abandoned (CLOSE or re-PREPARE, same or other id); every value of the flags byte x iteration counts {0,1,2,2^32-1} x 5 handshake variants (among them one that mentions every capability the server did not offer). Oracle: exactly n parameters, type = bound code, raw value = encoded value, conversion = encoded value (zero dates and negative TIME have no chrono/Duration form and are checked raw).".into(),
+        rule: "COM_STMT_EXECUTE parameter blocks built from semantic values by the independent encoder and run through the real run_on; the shim records (type, raw inner value) and applies the documented Into<T> for the corresponding Rust type under catch_unwind. Domains: TINY, SHORT, YEAR exhaustive (signed and unsigned); LONG/INT24/LONGLONG over every 2^k, 2^k+-1 and the bounds; FLOAT/DOUBLE lattices incl. subnormals and infinities; byte strings of every length 0..300 and the length-class edges for all 14 string-like type codes, 65535..65537 (and around 2^24 in thorough), and lengths 0..65536 sent with every legal longer prefix form (0xfc, 0xfd, 0xfe) for six string-like codes in two positions; every legal length form of DATE/DATETIME/TIMESTAMP (0,4,7,11; DATE with a time part raw only) and TIME (0,8,12) over boundary calendar values, every month with its first/28th/last days in five years, every hour x five day counts, microseconds of every decimal shape; negative TIME raw only; all 26 type codes (MYSQL_TYPE_NULL among them) x unsigned in four position classes next to every other type; consecutive executions of one statement binding every ordered pair of (type, unsigned) tables (one parameter: all 52^2, and all 52^2 with the executions alternating between two statements of the same shape - 1:T1, 2:T2, 1:T2, 2:T1; two parameters: all 12^4 over the integer codes, thorough: all 52^4 over every code; triples 12^3), values with the top bit set; parameter counts 0..17, 63, 64, 65, 255, 256, 300, 65529, 65535 (thorough: more around 2^15 and 2^16) with all 2^n NULL bitmaps for n <= 12 (8 in quick) and structured ones above; inline executions that follow an execution fed by 0..1.2 MB of long data, and the first inline executions of a statement prepared after 0..1.2 MB of another statement's long data was abandoned (CLOSE or re-PREPARE, same or other id); every value of the flags byte x iteration counts {0,1,2,2^32-1} x 5 handshake variants (among them one that mentions every capability the server did not offer). Oracle: exactly n parameters, type = bound code, raw value = encoded value, conversion = encoded value (zero dates and negative TIME have no chrono/Duration form and are checked raw).".into(),
         assumptions: vec!["wider integer, float and string domains are covered at lattices".into()],
         bounds: json!({"all_bitmaps_up_to_params": if quick {8} else {12}}),
         exhaustive: true,
         caps_hit: vec![],
         families,
-        required: vec!["execute_header_cases", "rebinds_changing_only_flags", "values_bound", "microsecond_forms", "second_bitmap_byte", "after_long_data", "after_abandoned_long_data"],
+        required: vec!["execute_header_cases", "rebinds_changing_only_flags", "values_bound", "microsecond_forms", "second_bitmap_byte", "after_long_data", "after_abandoned_long_data", "length_prefix_forms"],
     }
 }
